@@ -1,7 +1,7 @@
 import PhyModel.Proofs.StoreCache_DecWF
 import PhyModel.Proofs.StoreWF_Step
 /-! C06 joined with C07: along a history whose edits are `Legal` (`LegalRun`, `Proofs/StoreWF_Step`)
-C07's invariant holds in every visited state (`inv_step`), which discharges the well-formedness
+C07's invariant holds in every visited state (`inv0_step`), which discharges the well-formedness
 hypothesis of `cacheOK_run`.  Also a Boolean check of `Legal` for the non-vacuity examples. -/
 namespace PhyModel.Store.C06
 open PhyModel
@@ -11,7 +11,7 @@ theorem along_wf_of_legalRun (dt : Data) : ∀ (ops : List Op) (sys : Sys),
   | [], _, _, _ => trivial
   | _ :: ops, sys, hall, hleg =>
     ⟨fun s hs => (hall s hs).1, fun sys' hs =>
-      along_wf_of_legalRun dt ops sys' (inv_step hall hleg.1 hs) (hleg.2 sys' hs)⟩
+      along_wf_of_legalRun dt ops sys' (inv0_step hall hleg.1 hs) (hleg.2 sys' hs)⟩
 
 /-- **C06 for every legal history from any well-formed start.** -/
 theorem cacheOK_run_legal (dt : Data) (hNZ : DataNZ dt) (ops : List Op) (sys sys' : Sys)
